@@ -14,7 +14,7 @@ import (
 
 func init() { registerProp("C09", runC09) }
 
-var shrinkIOSites = []string{"shrink.write", "shrink.sync", "shrink.swap.write", "shrink.swap.sync"}
+var shrinkIOSites = []string{"shrink.write", "shrink.sync", "shrink.swap.write", "shrink.swap.sync", "shrink.chunk.write"}
 
 var shrinkPoints = []string{"shrink.copied", "shrink.swap.synced", "shrink.swap.closed", "shrink.swap.renamed1", "shrink.swap.renamed2", "shrink.swap.reopened"}
 
@@ -167,6 +167,19 @@ func runC09(w *World) {
 	for _, c := range pre {
 		raw = append(raw, encodeCmd(c.Args)...)
 	}
+	// a few runs carry one more collection of ~5 MB, enough for the rewrite to write the new
+	// file in more than one chunk (it buffers 4 MB before it writes)
+	heavyN := 40
+	if w.deep() {
+		heavyN = 8
+	}
+	heavy := w.knob("heavy", heavyN) == 1
+	if heavy {
+		for i := 0; i < 72; i++ {
+			raw = append(raw, encodeCmd([]string{"SET", "zheavy", fmt.Sprintf("h%02d", i), "STRING", fmt.Sprintf("%02d", i) + strings.Repeat("h", 70000)})...)
+		}
+		w.stat("c09.heavy_datasets", 1)
+	}
 	os.WriteFile(filepath.Join(n.dir, "appendonly.aof"), raw, 0600)
 	os.WriteFile(filepath.Join(n.dir, "config"), []byte(mustJSON(n.config)), 0600)
 	inst := n.start()
@@ -204,6 +217,9 @@ func runC09(w *World) {
 	// disk errors: in some runs one write or sync of the (first) rewrite fails, as on a full disk.
 	// The rewrite must give up and leave the live log, the served dataset and later appends intact.
 	ioerr := w.knob("ioerr", 12) // 1..4 = failing operation, otherwise none
+	if heavy && ioerr > len(shrinkIOSites) && ioerr%2 == 0 {
+		ioerr = len(shrinkIOSites) // the chunk write only exists on a heavy dataset
+	}
 	if ioerr >= 1 && ioerr <= len(shrinkIOSites) {
 		inst.failAt = map[string]int{shrinkIOSites[ioerr-1]: 1}
 	} else {
